@@ -764,14 +764,14 @@ pub fn run(run: &Run) {
     run.section_exhaustive("frame-lengths", true, "all payload lengths 0..=4096 (DATA; thorough: DATA, HEADERS, SETTINGS, GREASE)");
     prop_search(
         run,
-        Search { check: "frame", cases: run.tier.pick(60_000, 2_000_000), workers, max_shrink_iters: 4000 },
+        Search { check: "frame", cases: run.tier.pick(250_000, 4_000_000), workers, max_shrink_iters: 4000 },
         frame_case,
         |c| out(guarded(|| test_frame(c)), true),
         |c| serde_json::to_value(c).unwrap(),
     );
     prop_search(
         run,
-        Search { check: "stream-header", cases: run.tier.pick(40_000, 1_000_000), workers, max_shrink_iters: 2000 },
+        Search { check: "stream-header", cases: run.tier.pick(200_000, 2_000_000), workers, max_shrink_iters: 2000 },
         header_case,
         |c| out(guarded(|| test_header(c)), c.kind == 1 || c.kind == 4),
         |c| serde_json::to_value(c).unwrap(),
@@ -780,7 +780,7 @@ pub fn run(run: &Run) {
     // 3. settings
     prop_search(
         run,
-        Search { check: "settings", cases: run.tier.pick(60_000, 2_000_000), workers, max_shrink_iters: 4000 },
+        Search { check: "settings", cases: run.tier.pick(250_000, 4_000_000), workers, max_shrink_iters: 4000 },
         settings_case,
         |c| out(guarded(|| test_settings(c)), !settings_pairs(c).is_empty()),
         |c| serde_json::to_value(c).unwrap(),
@@ -798,7 +798,7 @@ pub fn run(run: &Run) {
     // 4. header maps
     prop_search(
         run,
-        Search { check: "headers", cases: run.tier.pick(40_000, 1_500_000), workers, max_shrink_iters: 6000 },
+        Search { check: "headers", cases: run.tier.pick(150_000, 3_000_000), workers, max_shrink_iters: 6000 },
         headers_case,
         |c| {
             let mut labels = Vec::new();
@@ -834,7 +834,7 @@ pub fn run(run: &Run) {
     // 5. datagrams
     prop_search(
         run,
-        Search { check: "datagram", cases: run.tier.pick(60_000, 2_000_000), workers, max_shrink_iters: 4000 },
+        Search { check: "datagram", cases: run.tier.pick(250_000, 4_000_000), workers, max_shrink_iters: 4000 },
         datagram_case,
         |c| out(guarded(|| test_datagram(c)), true),
         |c| serde_json::to_value(c).unwrap(),
